@@ -22,7 +22,7 @@ RULE = (
     "threshold, bad notation, unknown back-end, order 3 with 'direct', coord_types of wrong length, indefinite gamma "
     "with tiny threshold, zero-charge nucleus on a grid point, unknown element, missing file) on a small pool of SHARED "
     "objects (basis tuple, arrays, lists, basis dictionary, files), interleaved with parameter updates (coeffs / exps / "
-    "coord assignment followed by assign_norm_cont()), under default / all-raise / all-ignore / errcall FP settings. "
+    "coord assignment or in-place edit followed by assign_norm_cont(), and rejected updates with arrays of the wrong length), under default / all-raise / all-ignore / errcall FP settings. "
     "Monitors per operation: argument-digest sentinel on return and on raise (M-pure), numpy geterr()/geterrcall() "
     "sentinel (M-fp), result-aliasing and kernel-freshness sentinels; determinism: pass 2 re-evaluates every operation in "
     "shuffled order on a deep copy of the pool state it saw and must reproduce outcome type and value (1e-13 relative), "
@@ -47,7 +47,7 @@ INVALID_OPS = [
     "bad_density_threshold", "bad_zero_charge_on_point", "bad_orders_negative", "bad_transform_shape", "bad_atom", "bad_file",
     "bad_moment_orders", "bad_sph_labels",
 ]
-UPDATE_OPS = ["upd_coeffs", "upd_exps", "upd_coord"]
+UPDATE_OPS = ["upd_coeffs", "upd_exps", "upd_coord", "upd_exps_inplace", "upd_coeffs_inplace", "upd_coord_inplace", "upd_bad_coeffs", "upd_bad_exps"]
 
 
 def gen_cases(tier, seed):
@@ -242,6 +242,32 @@ def op_call(name, P, o):
 def apply_update(name, P, o, frozen=False):
     s = P["basis"][o["shell"] % len(P["basis"])]
     r = o["r"]
+    if name in ("upd_bad_coeffs", "upd_bad_exps"):
+        # a rejected parameter update must leave the shell exactly as it was ("whether it returns or raises")
+        before = mi.digest(vars(s))
+        try:
+            if name == "upd_bad_coeffs":
+                s.coeffs = np.ones(len(s.exps) + 1)
+            else:
+                s.exps = np.ones(len(s.exps) + 2)
+            raised = False
+        except Exception:  # noqa: BLE001
+            raised = True
+        return ("rejected" if raised else "accepted"), before == mi.digest(vars(s)), s
+    if name.endswith("_inplace"):
+        was = [a.flags.writeable for a in (s.exps, s.coeffs, s.coord)]
+        for a in (s.exps, s.coeffs, s.coord):
+            a.flags.writeable = True
+        if name == "upd_exps_inplace":
+            s.exps[:] = s.exps * (0.5 + r[0])
+        elif name == "upd_coeffs_inplace":
+            s.coeffs[:] = s.coeffs * (0.5 + r[0]) + 0.1 * r[1]
+        else:
+            s.coord[:] = s.coord + np.array(r[:3]) - 0.5
+        s.assign_norm_cont()
+        if frozen:
+            mi.freeze(s)
+        return s
     if name == "upd_coeffs":
         s.coeffs = np.array(s.coeffs) * (0.5 + r[0]) + 0.1 * r[1]
     elif name == "upd_exps":
@@ -321,6 +347,17 @@ def run_history(case, pool, mode, viols, pass_name):
         mi.freeze(pool)
     for k, o in enumerate(case["ops"]):
         name = o["op"]
+        if name in ("upd_bad_coeffs", "upd_bad_exps"):
+            outcome, unchanged, s = apply_update(name, pool, o, frozen)
+            evals += 1
+            if outcome != "rejected":
+                viols.append(cm.viol("[%s] an update with an array of the wrong length (%s) was accepted" % (pass_name, name), "bad_update_accepted", op=name))
+                break
+            if not unchanged:
+                viols.append(cm.viol("[%s] a rejected parameter update (%s raised) nevertheless modified the shell" % (pass_name, name), "rejected_update_modified_shell", op=name))
+                break
+            rec.append((o, None, None, None))
+            continue
         if name.startswith("upd_"):
             s = apply_update(name, pool, o, frozen)
             S = cm.call(overlap_integral, [s])
